@@ -260,6 +260,15 @@ def storeStepNormal (w : World) (toks : List String) : Option (World × String) 
     | .error e =>
       let (w', o) := w.exec evs id
       some (w', withOutcome armed o ("err " ++ showOpenErr e))
+  | ["openplain"] =>
+    let (evs, r) := openScript H w.cfg w.disk w.handle.isSome
+    match r with
+    | .ok (m, _) =>
+      let (w', o) := w.exec evs (fun w => { w with handle := some m, scan := none })
+      some (w', withOutcome armed o "ok plain")
+    | .error e =>
+      let (w', o) := w.exec evs id
+      some (w', withOutcome armed o ("err " ++ showOpenErr e))
   | ["open2"] =>
     let (evs, r) := openScript H w.cfg w.disk w.handle.isSome
     let (w', _) := w.exec evs id
